@@ -1,0 +1,14 @@
+//go:build verif
+
+// Contracts for the verification machinery in /verif (comment-only; compiled only with -tags verif).
+package v3
+
+//@ kvstore wrk_store wrk_key
+
+// The parameter migration writes the module's parameter key and nothing else, and only a parameter set that passed
+// Validate - so the stored parameters satisfy the validity rules after the upgrade as well (C16).
+//@ func Migrate(ctx, store, legacySubspace, cdc) (err)
+//@   props C16
+//@   modifies wrk_store
+//@   ensures @writes_only_valid_params err == nil ==> wrk_store == wrkParamsPut(old(wrk_store), wrkParams(wrk_store)) && validDenom(wrkParams(wrk_store).Denom) && wrkParams(wrk_store).FeeRegister >= 1 && wrkParams(wrk_store).FeeRecord >= 1 && wrkParams(wrk_store).FeePurchaseStorage >= 1 && wrkParams(wrk_store).DefaultStorageLimit >= 1 && wrkParams(wrk_store).DefaultStorageLimit <= wrkParams(wrk_store).MaxStorageLimit
+//@   ensures @rejected_changes_nothing err != nil ==> wrk_store == old(wrk_store)
